@@ -71,7 +71,7 @@ func c05Check(c *Ctx, spec *gen.TableSpec, st *stage, sample bool) {
 	w := csv.Wrap(t)
 	if st != nil {
 		c.Case = map[string]interface{}{"table": spec, "mode": st.Note}
-		b := spec.BuildStagedN(t, st.points(), func() { w.Render() })
+		b := spec.BuildStagedN(t, st.points(), func() { o, _ := w.Render(); c.Keep(o, "an earlier Render through the same wrapper") })
 		w.Render()
 		b.Finalize()
 		c.Rec.Count("staged_cases(render, change, render again through the same wrapper)", 1)
